@@ -413,7 +413,9 @@ ENTRIES = {
     "field_call": dict(
         roles={"tpos": lambda o: base_pos(), "field": lambda o: base_field()},
         opts=["trend", "mean", "normalizer", "no_process", "coord_mean"], inplace=["trend", "mean", "normalizer", "coord_mean"], call=e_field_call),
-    "normalizer_methods": dict(roles={"data": lambda o: np.abs(base_field()) + 0.5}, opts=["fit"], inplace=["fit"], call=e_normalizer),
+    # out_of_range: the data contain values outside the normalizer's domain (answered with a warning and NaN)
+    "normalizer_methods": dict(roles={"data": lambda o: (base_field() - 3.0) if "out_of_range" in o else np.abs(base_field()) + 0.5},
+                               opts=["fit", "out_of_range"], inplace=["fit", "out_of_range"], call=e_normalizer),
     "apply_mean_norm_trend": dict(
         roles={"tpos": lambda o: base_pos(), "field": lambda o: base_field(), "fields": lambda o: base_field(2)},
         opts=["mean", "trend", "normalizer", "stacked", "coord_mean"], inplace=["mean", "trend", "normalizer", "coord_mean"], call=e_apply_mnt),
